@@ -23,6 +23,7 @@ func init() {
 			{ID: "C10.R5", Floor: 3, Doc: "strategy selection by class; invalid options give no strategy", Run: c10r5},
 			{ID: "C10.R6", Floor: 2, Doc: "NetworkTopologyStrategy: in every block, hosts appended to the replica list and additions to the per-DC replica count balance", Run: c10r6},
 			{ID: "C10.R7", Floor: 2, Doc: "the replica list stored for a token range is built in that range's own iteration (fresh list filled by the walk from that token), never taken from a cache or an outer variable", Run: c10r7},
+			{ID: "C10.R8", Floor: 1, Doc: "NetworkTopologyStrategy: the all-racks-seen test that lets the skipped hosts in is made on the rack set that already contains the current host's rack", Run: c10r8},
 		},
 	})
 }
@@ -1562,4 +1563,286 @@ func (p *Program) fieldFreshInIteration(fi *FuncInfo, loop *ast.BlockStmt, at as
 		}
 	}
 	return false
+}
+
+// c10r8: Cassandra adds the nodes it had put aside (second and later nodes of a rack) as soon as every rack of the
+// datacenter holds a replica - counting the rack of the node just accepted. The drain of the skipped list is
+// therefore guarded by `len(seen racks) == len(racks of the dc)` evaluated AFTER the current rack was inserted (or,
+// equivalently, len(seen)+1 evaluated before). A guard computed before the insertion and used after it is one node
+// late: the skipped hosts are let in one accepted node too late (or never), so the replica order and, for RF above
+// the rack count, the replica set differ from Cassandra's.
+func c10r8(p *Program, r *Report) {
+	impl := r.NeedFunc("(*networkTopology).replicaMap")
+	if impl == nil {
+		return
+	}
+	n := 0
+	for _, fi := range p.unitsOf(impl) {
+		g := p.GraphOf(fi)
+		info := g.Info
+		isRackSet := func(e ast.Expr) bool { // map[string]struct{} (or map[string]bool)
+			t := info.TypeOf(e)
+			if t == nil {
+				return false
+			}
+			m, ok := t.Underlying().(*types.Map)
+			if !ok {
+				return false
+			}
+			if b, isB := m.Key().Underlying().(*types.Basic); !isB || b.Kind() != types.String {
+				return false
+			}
+			switch el := m.Elem().Underlying().(type) {
+			case *types.Struct:
+				return el.NumFields() == 0
+			case *types.Basic:
+				return el.Kind() == types.Bool
+			}
+			return false
+		}
+		isSkippedElem := func(e ast.Expr) bool { // an element of a map[string][]*HostInfo entry, possibly through a local
+			ix, ok := ast.Unparen(e).(*ast.IndexExpr)
+			if !ok {
+				return false
+			}
+			src := ast.Unparen(ix.X)
+			if id, isId := src.(*ast.Ident); isId {
+				if d := localDef(info, fi, id); d != nil {
+					src = ast.Unparen(d)
+				}
+			}
+			six, ok := src.(*ast.IndexExpr)
+			if !ok {
+				return false
+			}
+			t := info.TypeOf(six.X)
+			if t == nil {
+				return false
+			}
+			m, ok := t.Underlying().(*types.Map)
+			return ok && strings.Contains(m.Elem().String(), "HostInfo")
+		}
+		// drain loops: the innermost loops that append elements of a skipped list to a replica list
+		var drains []ast.Stmt
+		seenDrain := map[ast.Node]bool{}
+		ast.Inspect(fi.Decl.Body, func(y ast.Node) bool {
+			as, ok := y.(*ast.AssignStmt)
+			if !ok || len(as.Lhs) != 1 || len(as.Rhs) != 1 {
+				return true
+			}
+			c, ok := ast.Unparen(as.Rhs[0]).(*ast.CallExpr)
+			if !ok || calleeName(info, c) != "builtin.append" || len(c.Args) != 2 || exprStr(c.Args[0]) != exprStr(as.Lhs[0]) {
+				return true
+			}
+			if t := info.TypeOf(as.Lhs[0]); t == nil || !strings.Contains(t.String(), "[]*") || !strings.Contains(t.String(), "HostInfo") {
+				return true
+			}
+			if _, isIx := ast.Unparen(as.Lhs[0]).(*ast.IndexExpr); isIx {
+				return true // an append to the skipped list itself
+			}
+			arg := c.Args[1]
+			if id, isId := ast.Unparen(arg).(*ast.Ident); isId {
+				if d := localDef(info, fi, id); d != nil {
+					arg = d
+				}
+			}
+			if !isSkippedElem(arg) {
+				return true
+			}
+			loop := p.enclosing(as, fi.Decl, func(m ast.Node) bool {
+				switch m.(type) {
+				case *ast.ForStmt, *ast.RangeStmt:
+					return true
+				}
+				return false
+			})
+			if loop != nil && !seenDrain[loop] {
+				seenDrain[loop] = true
+				drains = append(drains, loop.(ast.Stmt))
+			}
+			return true
+		})
+		// or: the drain was moved into a helper that is handed the skipped list of the datacenter
+		ast.Inspect(fi.Decl.Body, func(y ast.Node) bool {
+			c, ok := y.(*ast.CallExpr)
+			if !ok {
+				return true
+			}
+			fn := calleeOf(info, c)
+			if fn == nil {
+				return true
+			}
+			h := p.FuncOf(fn)
+			if h == nil || h.Pkg != p.Root || h.Decl.Body == nil || h == fi {
+				return true
+			}
+			for k, a := range c.Args {
+				six, isIx := ast.Unparen(a).(*ast.IndexExpr)
+				if !isIx {
+					continue
+				}
+				t := info.TypeOf(six.X)
+				if t == nil {
+					continue
+				}
+				m, isM := t.Underlying().(*types.Map)
+				if !isM || !strings.Contains(m.Elem().String(), "HostInfo") {
+					continue
+				}
+				po := paramObj(h.Pkg.TypesInfo, h.Decl.Type, k)
+				if po == nil {
+					continue
+				}
+				// the helper appends elements of that parameter to a host list
+				appends := false
+				ast.Inspect(h.Decl.Body, func(z ast.Node) bool {
+					ac, ok := z.(*ast.CallExpr)
+					if !ok || calleeName(h.Pkg.TypesInfo, ac) != "builtin.append" || len(ac.Args) != 2 {
+						return true
+					}
+					arg := ast.Unparen(ac.Args[1])
+					if sl, isSl := arg.(*ast.SliceExpr); isSl && ac.Ellipsis.IsValid() {
+						arg = ast.Unparen(sl.X)
+					}
+					if ix, isIx := arg.(*ast.IndexExpr); isIx {
+						arg = ast.Unparen(ix.X)
+					}
+					if isIdentOf(h.Pkg.TypesInfo, arg, po) {
+						appends = true
+					}
+					return true
+				})
+				if appends {
+					if st, isStmt := p.stmtOf(c, fi).(ast.Stmt); isStmt && !seenDrain[st] {
+						seenDrain[st] = true
+						drains = append(drains, st)
+					}
+				}
+			}
+			return true
+		})
+		if len(drains) == 0 {
+			continue
+		}
+		// insertion events: R[k] = v for a rack set R
+		ef := g.Events(func(st Step) []string {
+			if st.Kind != StNode {
+				return nil
+			}
+			var out []string
+			for _, l := range assignedLHS(st.Node) {
+				if ix, ok := ast.Unparen(l).(*ast.IndexExpr); ok && isRackSet(ix.X) {
+					out = append(out, "insert:"+exprStr(ix.X))
+				}
+			}
+			return out
+		})
+		// insertedInScope: the set is inserted into within the walk step that contains the guard (the innermost loop
+		// around it, else the whole function): that is the set of racks seen so far, not the table of all racks
+		insertedInScope := func(guard *ast.IfStmt, set ast.Expr) bool {
+			var scope ast.Node = fi.Decl.Body
+			if l := p.enclosing(guard, fi.Decl, func(m ast.Node) bool {
+				switch m.(type) {
+				case *ast.ForStmt, *ast.RangeStmt:
+					return true
+				}
+				return false
+			}); l != nil {
+				scope = l
+			}
+			found := false
+			ast.Inspect(scope, func(y ast.Node) bool {
+				for _, l := range assignedLHS(y) {
+					if ix, ok := ast.Unparen(l).(*ast.IndexExpr); ok && exprStr(ix.X) == exprStr(set) {
+						found = true
+					}
+				}
+				return true
+			})
+			return found
+		}
+		for _, d := range drains {
+			n++
+			name := fi.Name + ": skipped hosts are let in when all racks are seen, counting the current rack"
+			// the guard: the innermost enclosing if whose condition compares len(<rack set>) with another length
+			var guard *ast.IfStmt
+			var rackSet ast.Expr
+			var evalAt ast.Node
+			plusOne := false
+			for cur := p.Parent(d); cur != nil && cur != ast.Node(fi.Decl) && guard == nil; cur = p.Parent(cur) {
+				ifs, ok := cur.(*ast.IfStmt)
+				if !ok || !posWithin(ifs.Body, d.Pos()) {
+					continue
+				}
+				cond := ast.Expr(ifs.Cond)
+				at := ast.Node(ifs.Cond)
+				// a boolean local that names the comparison: it is evaluated where it is defined
+				if id, isId := ast.Unparen(cond).(*ast.Ident); isId {
+					if obj := info.Uses[id]; obj != nil && singleAssigned(info, fi.Decl.Body, obj) {
+						if def := localDef(info, fi, id); def != nil {
+							cond = def
+							ast.Inspect(fi.Decl.Body, func(y ast.Node) bool {
+								if as, ok := y.(*ast.AssignStmt); ok {
+									for i, l := range as.Lhs {
+										if lid, ok := l.(*ast.Ident); ok && info.Defs[lid] == obj && i < len(as.Rhs) {
+											at = as
+										}
+									}
+								}
+								return true
+							})
+						}
+					}
+				}
+				ast.Inspect(cond, func(y ast.Node) bool {
+					b, ok := y.(*ast.BinaryExpr)
+					if !ok || b.Op != token.EQL {
+						return true
+					}
+					for _, side := range []ast.Expr{b.X, b.Y} {
+						e := ast.Unparen(side)
+						inc := false
+						if sum, isSum := e.(*ast.BinaryExpr); isSum && sum.Op == token.ADD {
+							if k, isK := constInt(info, sum.Y); isK && k == 1 {
+								e, inc = ast.Unparen(sum.X), true
+							}
+						}
+						if lc, isL := e.(*ast.CallExpr); isL && exprStr(lc.Fun) == "len" && len(lc.Args) == 1 && isRackSet(lc.Args[0]) && insertedInScope(ifs, lc.Args[0]) {
+							// the other side must be a length too (the racks the datacenter has)
+							guard, rackSet, evalAt, plusOne = ifs, lc.Args[0], at, inc
+							if at == ast.Node(ifs.Cond) {
+								evalAt = b // the leaf the short-circuit evaluation reaches
+							}
+						}
+					}
+					return true
+				})
+			}
+			if guard == nil {
+				r.Unresolved("%s: the drain of the skipped hosts at %s is not guarded by a comparison of the seen-rack count", fi.Name, p.Pos(d))
+				continue
+			}
+			ev := "insert:" + exprStr(rackSet)
+			atEval, ok1 := ef.Sol.Before(g.FirstNodeIn(p.stmtOf(evalAt, fi)))
+			atDrain, ok2 := ef.Sol.Before(g.FirstNodeIn(d))
+			if !ok1 || !ok2 {
+				r.Unresolved("%s: drain at %s unreachable in the flow graph", fi.Name, p.Pos(d))
+				continue
+			}
+			insBefore, insAtDrain := atEval.Must[ev], atDrain.Must[ev]
+			switch {
+			case insBefore && !plusOne:
+				r.OK(d, name, "len("+exprStr(rackSet)+") is compared after the current rack was inserted")
+			case !insBefore && plusOne && atEval.Max[ev] == 0:
+				r.OK(d, name, "len("+exprStr(rackSet)+")+1 is compared before the current rack is inserted")
+			case !insBefore && insAtDrain && !plusOne:
+				r.Bad(d, name, "the all-racks-seen test ("+p.Pos(evalAt)+") is evaluated before the current host's rack is added to "+exprStr(rackSet)+" and used after it: when the last unseen rack is met the skipped hosts are not let in, so replicas beyond the rack count are chosen later on the ring (or never) - not Cassandra's NetworkTopologyStrategy placement")
+			default:
+				r.Unresolved("%s: cannot relate the all-racks-seen test at %s to the insertion of the current rack", fi.Name, p.Pos(evalAt))
+			}
+		}
+	}
+	if n == 0 {
+		r.Unresolved("networkTopology.replicaMap: no loop that lets the skipped hosts into the replica list was found")
+	}
 }
